@@ -153,7 +153,7 @@ let run path =
       | ["closed"; c] -> OMarkClosed (conn c)
       | ["sub"; c; subs] -> let subs = subs_of_s subs in OSubscribe (conn c, subs, batches_oracle prev next (conn c) subs)
       | ["unsub"; c; fs] -> OUnsubscribe (conn c, L.map bytes_of_hex (split ';' fs))
-      | ["pub"; c; m] | ["resume"; c; m] -> let m = msg_of_s m in OPublish (conn c, m, got_oracle prev next m)
+      | ["pub"; c; m] | ["resume"; c; m] | ["ackpub"; c; m] -> let m = msg_of_s m in OPublish (conn c, m, got_oracle prev next m)
       | ["deq"; c; q] -> ODequeue (conn c, q = "t")
       | ["term"; c] -> OTerminate (conn c)
       | ["close"] -> OClose
@@ -177,7 +177,11 @@ let run path =
     (* specification clauses on the implementation's own observations *)
     (match next, result_of_s res with
      | Some nx, Some ires ->
+       (* a Publish issued from the acknowledgement of an Unsubscribe: a delivery on account of a removed
+          filter is a violation of the unsubscribe clause *)
+       let ack = (match args with "ackpub" :: _ -> true | _ -> false) in
        L.iter (fun (name, ok) ->
+           let name = if ack && name = "targets" then "unsub" else name in
            if not ok then begin
              incr propfails;
              Printf.printf "propfail %s %s op=%s impl=%s\n" label name (S.concat " " args) res end)
